@@ -111,3 +111,217 @@ for cname, (lo_, hi_) in XSD_BOUNDS.items():
                                                                         -2 ** 31, -2 ** 31 - 1, 2 ** 63, 2 ** 63 - 1, -2 ** 63, -2 ** 63 - 1, 2 ** 64,
                                                                         2 ** 64 - 1, 10 ** 30})),
         expect_min_obligations=2))
+
+
+# ======================================================================================================
+# Bounded stand-ins (never counted as proved): lexical grids, canonical fixed points, casting agreement
+# ======================================================================================================
+from . import xsd_oracle as O
+from elementpath.datatypes import builtin_atomic_types as BUILTIN
+
+LEX_SEEDS = list(dict.fromkeys([
+    '', ' ', '0', '1', '-1', '+1', '00', '007', '-0', '+0', '1.', '.1', '1.0', '-1.50', '+.5', '.', '+', '-', '1e3', '1E3', '1e', 'e1', '1.5e-3',
+    '.5E+2', '1e+', 'INF', '-INF', '+INF', 'NaN', 'inf', 'nan', '-nan', '+NaN', 'Infinity', 'infinity', '-inf', 'NAN', '1_000', '1_0.5', '0x10', '١', '１',
+    '1 0', 'true', 'false', 'True', 'TRUE', 'yes', '2', '127', '128', '-128', '-129', '255', '256', '32767', '32768', '-32768', '-32769', '65535',
+    '65536', '2147483647', '2147483648', '-2147483648', '-2147483649', '4294967295', '4294967296', '9223372036854775807', '9223372036854775808',
+    '-9223372036854775808', '-9223372036854775809', '18446744073709551615', '18446744073709551616', '-0000', '+00001', '1e400', '1e-400',
+    '3.5e38', '1e39', '0.1', '1e-7', '1e6', '1e21', '123456.789', '0.000001', '1.5e300', '12345678901234567890.123456789',
+    '0A', '0a1B', 'A', 'G0', '0 A', 'FFFF', 'abcd==', 'YQ==', 'YWI=', 'YWJj', 'Y Q = =', 'YQ=', 'YR==', 'YWJ=', 'YWJj YWJj', '====', 'YQ', 'a', 'ab',
+    'a-b', 'en', 'en-US', 'en-', '-en', 'abcdefghi', 'en-abcdefghi', 'x-1', '1x', 'a:b', ':a', 'a:', 'a:b:c', '_a', '-a', '.a', 'a.b', 'a b', 'é',
+    'a·', '·a', '×', 'a×', 'aé', 'xml:lang', '1a', 'a1',
+    '2000-01-01', '2000-1-1', '2000-13-01', '2000-00-10', '2000-02-30', '2000-02-29', '1900-02-29', '2001-02-29', '2004-02-29', '0000-01-01',
+    '-0001-01-01', '-0001-02-29', '-0004-02-29', '-0005-02-29', '0000-02-29', '02000-01-01', '10000-01-01', '12000-02-29', '12001-02-29',
+    '-10000-01-01', '200-01-01', '2000-01-32', '2000-04-31', '2000-01-01Z', '2000-01-01z', '2000-01-01+14:00', '2000-01-01+14:01',
+    '2000-01-01-14:00', '2000-01-01+13:59', '2000-01-01+13:60', '2000-01-01+1:00', '2000-01-01+01', '2000-01-01T00:00:00', '2000-01-01T24:00:00',
+    '2000-01-01T24:00:01', '2000-01-01T24:00:00.0', '2000-01-01T24:00:00.1', '2000-01-01T23:59:60', '2000-01-01T23:60:00', '2000-01-01T25:00:00',
+    '2000-01-01T12:00:00.123456789', '2000-01-01T12:00:00.', '2000-01-01T12:00', '2000-01-01 12:00:00', '2000-01-01t12:00:00',
+    '2000-01-01T12:00:00Z', '2000-01-01T12:00:00+05:30', '2000-01-01T12:00:00-00:00', '9999-12-31T23:59:59.999999', '9999-12-31T24:00:00',
+    '0000-01-01T00:00:00', '2000-02-30T00:00:00', '12:00:00', '24:00:00', '24:00:00.000', '24:00:01', '12:00:00.5', '12:00:00Z', '12:00', '1:00:00',
+    '12:00:00+14:00', '23:59:59.9999999', '2000', '2000Z', '0000', '-0001', '20000', '02000', '200', '2000-01', '2000-13', '2000-00', '0000-01',
+    '2000-01Z', '--01', '--13', '--00', '--01Z', '--1', '--01--', '---01', '---31', '---32', '---00', '---1', '---01Z', '---01+05:00', '--01-01',
+    '--02-29', '--02-30', '--04-31', '--13-01', '--01-32', '--01-00', '--12-31Z',
+    'P1Y', 'P', 'PT', 'P1', '1Y', '-P1Y', '+P1Y', 'P-1Y', 'P1Y2M', 'P1M', 'P1D', 'PT1H', 'PT1M', 'PT1S', 'PT1.5S', 'PT1.S', 'PT.5S', 'P1YT',
+    'P1Y2M3DT4H5M6.7S', 'P1M1Y', 'P1DT', 'PT1H1S', 'P1Y1D', 'P1.5Y', 'P1H', 'PT1Y', 'PT1D', 'p1y', 'P1S', 'P0Y', 'PT0S', '-PT0S', 'P1W', 'PT1M1H',
+    'P1DT1H', 'P13M', 'PT36H', 'PT1.000000S', 'P0M', 'P0D', 'P0Y0M', 'P1Y0D', 'P0DT1H',
+    'x\ty', 'x\ny', ' x ', 'x  y', '\tx', 'x\r', ' 1 ', '\n1\n', ' true ', ' 2000-01-01 ', ' P1Y ', ' 0A ', ' YQ== ', ' en ', ' a:b ', '1 ', ' INF',
+    '\x0c1', '1\x0b', ' 1', '\xa01', '\x851']))
+
+TYPE_NAMES = sorted(k[3:] for k in BUILTIN if k.startswith('xs:') and k[3:] not in ('anyAtomicType', 'error', 'NOTATION'))
+NS = {'a': 'urn:a', 'xml': 'http://www.w3.org/XML/1998/namespace'}
+
+
+def _make(tname, s, xsd_version):
+    cls = BUILTIN['xs:' + tname]
+    if tname == 'QName':
+        from elementpath.datatypes import QName
+        from elementpath.namespaces import get_expanded_name          # noqa
+        raise LookupError('QName needs the static namespaces: covered by the casting grid')
+    return cls.make(s, xsd_version=xsd_version)
+
+
+def _accepts(thunk):
+    try:
+        thunk()
+        return True
+    except (ValueError, TypeError, ArithmeticError):
+        return False
+    except Exception as e:       # noqa - anything else escaping a constructor is reported as such
+        return 'raises ' + type(e).__name__
+
+
+def lexical_grid(tier, seed):
+    fails, n, fam = [], 0, {}
+    for v in ('1.0', '1.1'):
+        for tn in TYPE_NAMES:
+            if tn == 'QName':
+                continue
+            cls = BUILTIN['xs:' + tn]
+            for s in LEX_SEEDS:
+                norm = O.normalise(tn, s)
+                spec = O.in_lexical_space(tn, norm, v)
+                if spec is None:
+                    continue
+                n += 1
+                got = _accepts(lambda: cls.make(s, xsd_version=v))
+                if got != spec:
+                    k = f"xs:{tn} constructor {'accepts' if got is True else 'rejects' if got is False else got} a string " \
+                        f"{'outside' if not spec else 'of'} the lexical space"
+                    fam.setdefault(k, []).append({'type': tn, 'xsd': v, 's': s, 'kind': 'ctor', 'spec': spec})
+                if v == '1.1' and s == norm:
+                    n += 1
+                    iv = _accepts(lambda: cls.validate(s))
+                    if iv != spec:
+                        k = f"xs:{tn}.is_valid {'accepts' if iv is True else 'rejects' if iv is False else iv} a string " \
+                            f"{'outside' if not spec else 'of'} the lexical space"
+                        fam.setdefault(k, []).append({'type': tn, 'xsd': v, 's': s, 'kind': 'is_valid', 'spec': spec})
+    for k, items in fam.items():
+        fails.append({'key': k, 'items': items[:8], 'count': len(items), 'what': f"{k}: e.g. {items[0]['s']!r} (XSD {items[0]['xsd']}), "
+                      f"{len(items)} grid strings"})
+    return {'evaluations': n, 'distinct': n, 'exhaustive': False,
+            'scope': f'{len(LEX_SEEDS)} valid and near-valid lexical forms x {len(TYPE_NAMES) - 1} built-in types x XSD 1.0/1.1: T.make(s) succeeds iff '
+            'normalise_T(s) is in the XSD lexical space (oracle: contracts/xsd_oracle.py); is_valid on normalised strings (XSD 1.1)',
+            'failures': fails}
+
+
+def _replay_lex_grid(f):
+    for it in f['items']:
+        cls = BUILTIN['xs:' + it['type']]
+        if it['kind'] == 'ctor':
+            got = _accepts(lambda: cls.make(it['s'], xsd_version=it['xsd']))
+        else:
+            got = _accepts(lambda: cls.validate(it['s']))
+        if got != it['spec']:
+            return False
+    return True
+
+
+BOUNDED = [Bounded('lexical_space_grid', lexical_grid, _replay_lex_grid)]
+
+
+# ---- canonical strings: fixed point, equality and hash ---------------------------------------------------
+def _tok(version='3.1', xsd_version='1.1'):
+    return PARSERS[version](namespaces=NS, xsd_version=xsd_version).parse('.')
+
+
+def _same(a, b):
+    if isinstance(a, float) and isinstance(b, float) and math.isnan(a) and math.isnan(b):
+        return True
+    return type(a) is type(b) and a == b and not (a != b)
+
+
+def _double_deviation(x, c, want):
+    """Classify a non-canonical xs:double string (the pinned suite fixes Python's repr switch points)."""
+    import re as _re
+    m = _re.fullmatch(r'(-?[0-9]+)(\.[0-9]+)?E(-?)0*([0-9]+)', c)
+    if m and 'E' in want and f"{m.group(1)}{m.group(2) or '.0'}E{m.group(3)}{m.group(4)}" == want:
+        return 'prints an integer mantissa without ".0" or a zero-padded exponent (1E99, 1E-07)'
+    try:
+        same = float(c) == x
+    except ValueError:
+        same = False
+    if same and 1e6 <= abs(x) < 1e16 and 'E' not in c:
+        return 'uses decimal notation for 1e6 <= |x| < 1e16'
+    if same and 1e-6 <= abs(x) < 1e-4 and 'E' in c:
+        return 'uses E-notation for 1e-6 <= |x| < 1e-4'
+    return 'is not the canonical representation of F&O 19.1.2'
+
+
+def canonical_grid(tier, seed):
+    tok = _tok()
+    fam, n = {}, 0
+
+    def bad(k, **w):
+        fam.setdefault(k, []).append(w)
+    for tn in TYPE_NAMES:
+        if tn == 'QName':
+            continue
+        cls = BUILTIN['xs:' + tn]
+        for s in LEX_SEEDS:
+            if O.in_lexical_space(tn, O.normalise(tn, s), '1.1') is not True:
+                continue
+            try:
+                v = cls.make(s, xsd_version='1.1')
+            except Exception:      # noqa - reported by the lexical grid
+                continue
+            n += 1
+            c = tok.string_value(v)
+            try:
+                v2 = cls.make(c, xsd_version='1.1')
+            except Exception as e:     # noqa
+                bad(f'xs:{tn}: the canonical string is not accepted by the constructor', type=tn, s=s, canonical=c, err=type(e).__name__)
+                continue
+            c2 = tok.string_value(v2)
+            if c2 != c:
+                bad(f'xs:{tn}: the canonical string is not a fixed point', type=tn, s=s, canonical=c, again=c2)
+            if not _same(v, v2):
+                bad(f'xs:{tn}: the canonical string re-parses to a different value', type=tn, s=s, canonical=c)
+            else:
+                try:
+                    if hash(v) != hash(v2):
+                        bad(f'xs:{tn}: equal values have different hashes', type=tn, s=s, canonical=c)
+                except TypeError:
+                    pass
+            # oracles for the canonical form itself
+            if tn == 'double':
+                want = O.double_to_string(float(v))
+                if c != want:
+                    bad('xs:double: string() ' + _double_deviation(float(v), c, want), type=tn, s=s, canonical=c, want=want)
+            elif tn == 'decimal' or tn in O.INT_BOUNDS:
+                want = O.decimal_to_string(decimal.Decimal(O.normalise(tn, s)))
+                if c != want:
+                    bad(f'xs:{"decimal" if tn == "decimal" else "integer"}: string() is not the canonical representation', type=tn, s=s, canonical=c, want=want)
+            elif tn == 'boolean':
+                want = 'true' if O.normalise(tn, s) in ('1', 'true') else 'false'
+                if c != want:
+                    bad('xs:boolean: string() is not true/false', type=tn, s=s, canonical=c, want=want)
+            elif tn == 'hexBinary':
+                if c != O.normalise(tn, s).upper():
+                    bad('xs:hexBinary: string() is not the upper-case form', type=tn, s=s, canonical=c)
+    # equal values with different lexical forms hash alike
+    pairs = [('hexBinary', '0a1b', '0A1B'), ('decimal', '1.0', '1'), ('decimal', '+01.50', '1.5'), ('integer', '+1', '1'), ('double', '1e0', '1'),
+             ('float', '1.0', '1'), ('base64Binary', 'Y Q = =', 'YQ=='), ('dateTime', '2000-01-01T24:00:00', '2000-01-02T00:00:00'),
+             ('dateTime', '2000-01-01T12:00:00Z', '2000-01-01T13:00:00+01:00'), ('duration', 'P1Y', 'P12M'), ('duration', 'PT60M', 'PT1H'),
+             ('dayTimeDuration', 'P1D', 'PT24H'), ('yearMonthDuration', 'P1Y1M', 'P13M'), ('time', '24:00:00', '00:00:00'),
+             ('date', '2000-01-01Z', '2000-01-01+00:00'), ('gYear', '2000Z', '2000+00:00'), ('boolean', '1', 'true'), ('anyURI', ' http://a ', 'http://a'),
+             ('language', ' en ', 'en'), ('untypedAtomic', 'a', 'a'), ('long', '007', '7')]
+    for tn, s1, s2 in pairs:
+        cls = BUILTIN['xs:' + tn]
+        n += 1
+        a, b = cls.make(s1, xsd_version='1.1'), cls.make(s2, xsd_version='1.1')
+        if not (a == b):
+            bad(f'xs:{tn}: two lexical forms of one value are not equal', type=tn, s=s1, s2=s2)
+        elif hash(a) != hash(b):
+            bad(f'xs:{tn}: equal values have different hashes', type=tn, s=s1, s2=s2)
+    fails = [{'key': k, 'items': it[:8], 'count': len(it), 'what': f'{k}: e.g. {it[0]}'} for k, it in fam.items()]
+    return {'evaluations': n, 'distinct': n, 'exhaustive': False,
+            'scope': 'every valid grid string x built-in type: c = string(T(s)) is accepted by T, string(T(c)) == c, T(c) == T(s) with equal hash; '
+            'canonical forms of double/decimal/integer/boolean/hexBinary against F&O 19.1; 21 pairs of distinct lexical forms of one value',
+            'failures': fails}
+
+
+def _replay_canonical(f):
+    r = canonical_grid('quick', 0)
+    return all(x['key'] != f['key'] for x in r['failures'])
+
+
+BOUNDED.append(Bounded('canonical_string_fixed_point_and_hash', canonical_grid, _replay_canonical))
